@@ -97,6 +97,7 @@ type wf struct {
 	bases map[ssa.Value]aff // slice value -> offset of its element 0 within the body
 	memo  map[ssa.Value]aff
 	extra func(v ssa.Value) (aff, bool) // caller-supplied atoms
+	res   *Result                        // optional SCCP specialisation (constants folded, dead blocks skipped)
 }
 
 func newWF(f *ssa.Function) *wf {
@@ -149,10 +150,42 @@ func (w *wf) affine1(v ssa.Value) aff {
 			return r
 		}
 	}
+	if w.res != nil {
+		if k, ok := w.res.constOf(v); ok {
+			return affConst(k)
+		}
+	}
 	switch x := v.(type) {
 	case *ssa.Const:
 		if k, ok := constInt(x); ok {
 			return affConst(k)
+		}
+	case *ssa.Phi:
+		if w.res != nil {
+			var first aff
+			n := 0
+			same := true
+			for i, e := range x.Edges {
+				if !w.res.Exec[x.Block().Preds[i]] {
+					continue
+				}
+				a := w.affine(e)
+				if n == 0 {
+					first = a
+				} else if a.String() != first.String() {
+					same = false
+				}
+				n++
+			}
+			if n > 0 && same {
+				return first
+			}
+		}
+	case *ssa.Extract:
+		if c, ok := x.Tuple.(*ssa.Call); ok {
+			if f := c.Common().StaticCallee(); f != nil {
+				return affAtom(fmt.Sprintf("%s@%s#%d", f.Name(), w.callTag(c), x.Index))
+			}
 		}
 	case *ssa.Convert:
 		if isIntegerType(x.Type()) && isIntegerType(x.X.Type()) {
@@ -183,7 +216,7 @@ func (w *wf) affine1(v ssa.Value) aff {
 		}
 		if f := c.StaticCallee(); f != nil && f.Pkg != nil && f.Pkg.Pkg.Path() == "encoding/binary" && len(c.Args) >= 1 {
 			// method value on littleEndian/bigEndian: last arg is the slice
-			arg := c.Args[len(c.Args)-1]
+			arg := strip(c.Args[len(c.Args)-1])
 			if s, ok := arg.(*ssa.Slice); ok {
 				if lo, hi, open, ok := w.sliceRange(s); ok && !open {
 					e := "le"
@@ -208,6 +241,22 @@ func (w *wf) affine1(v ssa.Value) aff {
 		}
 	}
 	return affAtom("?" + v.Name())
+}
+
+// callTag distinguishes several calls of one callee by source order.
+func (w *wf) callTag(c *ssa.Call) string {
+	f := c.Common().StaticCallee()
+	n := 0
+	tag := 0
+	instrs(w.f, func(in ssa.Instruction) {
+		if c2, ok := in.(*ssa.Call); ok && c2.Common().StaticCallee() == f {
+			n++
+			if c2 == c {
+				tag = n
+			}
+		}
+	})
+	return fmt.Sprint(tag)
 }
 
 // readFact is one read of the body.
@@ -244,6 +293,9 @@ func (w *wf) reads() []readFact {
 	}
 	var out []readFact
 	instrs(w.f, func(in ssa.Instruction) {
+		if w.res != nil && !w.res.Exec[in.Block()] {
+			return
+		}
 		switch x := in.(type) {
 		case *ssa.Slice:
 			lo, hi, open, ok := w.sliceRange(x)
